@@ -156,6 +156,10 @@ AUTOVAL = """
     lag_diff = y{-1} - y{-2};
 """
 
+AUTOVAL_DET = AUTOVAL.replace("""!transition-shocks
+    ey
+""", "").replace("*exp(ey)", "")
+
 SEQ_A = """
 !parameters
     c0, ss
@@ -221,6 +225,12 @@ TEMPLATES = {
                 "init": {"y": {"t": [1.0, 1.02]}, "c": 1.0, "lag_ratio": 1.0, "lag_diff": 0.0},
                 "shocks": ["ey"], "shock_size": 0.01, "measurement": False, "logly_names": ["y", "c"], "growth": True,
                 "autovalues": True},
+    # the same without shocks: such a model can be exported to the portable form, steady-autovalue equations included
+    "autoval_det": {"cls": "sim", "source": AUTOVAL_DET, "flags": {"deterministic": True},
+                    "params": {"g": (1.0, 1.05), "rc": (0.2, 0.8)},
+                    "init": {"y": {"t": [1.0, 1.02]}, "c": 1.0, "lag_ratio": 1.0, "lag_diff": 0.0},
+                    "shocks": [], "shock_size": 0.0, "measurement": False, "logly_names": ["y", "c"], "growth": True,
+                    "autovalues": True},
     # the same linear model created with a default standard deviation of its own: it is part of what a replica carries
     "lin_bwd_std": {"cls": "sim", "source": LIN_BWD, "flags": {"linear": True}, "build_kw": {"default_std": 0.5},
                     "params": {"rx": (0.1, 0.9), "rz": (0.1, 0.9), "k": (-0.5, 0.5), "mu": (-1.0, 2.0)},
